@@ -16,6 +16,7 @@ ops
         one pass over `all S` (`foldAll`; with "part": over `allPart S i k`, the storage choices number i, i+k, …):
         → {"n":…, "valid":…, "unevaluable":…,
            "best":{"energy":{"v":q,"m":mapping}|null,"latency":…,"edp":…},
+           "bestStrict": the same over the mappings that fill no memory exactly (every usage < 1),
            "front":[[ints]…] (canonical front of the D-scaled objective vectors) , "exact":b }
         "exact" = every coordinate × D was an integer (otherwise "front" is null: nothing is rounded)
         optional "want":[[ints]…] (scan and scan2): → "found": for each wanted objective vector that occurs, a witness
@@ -104,6 +105,9 @@ structure Scan where
   bE : Option Best := none
   bL : Option Best := none
   bP : Option Best := none
+  sE : Option Best := none
+  sL : Option Best := none
+  sP : Option Best := none
   acc : Acc := {}
   exact : Bool := true
   found : List (Vec × Mapping Nat) := []
@@ -116,6 +120,10 @@ def scanStep (s : SpecDesc) (o : Objs) (D : Nat) (want : List Vec) (st : Scan) (
     let st := { st with n := st.n + 1, valid := st.valid + 1,
                         bE := Best.upd st.bE c.energy m, bL := Best.upd st.bL c.latency m,
                         bP := Best.upd st.bP (c.energy * c.latency) m }
+    let st := if c.fitsStrict then
+        { st with sE := Best.upd st.sE c.energy m, sL := Best.upd st.sL c.latency m,
+                  sP := Best.upd st.sP (c.energy * c.latency) m }
+      else st
     if !st.exact then st else
     match scaleVec D (c.vecQ o) with
     | none => { st with exact := false }
@@ -211,6 +219,9 @@ structure Scan2 where
   bE : Option Best2 := none
   bL : Option Best2 := none
   bP : Option Best2 := none
+  sE : Option Best2 := none
+  sL : Option Best2 := none
+  sP : Option Best2 := none
   acc : Acc := {}
   found : List (Vec × Vec × Vec) := []
 
@@ -228,6 +239,9 @@ def fitsI (caps : List (Option Rat)) (peak : List Int) : Bool :=
   (List.zipWith (fun (c : Option Rat) (p : Int) => match c with | none => true | some c => decide ((p : Rat) ≤ c)) caps peak).all id
 
 /-- Usage coordinates of the objective vector: peak bits × D of the finite memories, 0 for infinite ones. -/
+def strictI (caps : List (Option Rat)) (peak : List Int) : Bool :=
+  (List.zipWith (fun (c : Option Rat) (p : Int) => match c with | none => true | some c => decide ((p : Rat) < c)) caps peak).all id
+
 def usageI (caps : List (Option Rat)) (peak : List Int) : List Int :=
   List.zipWith (fun (c : Option Rat) (p : Int) => match c with | none => 0 | some _ => p) caps peak
 
@@ -248,6 +262,12 @@ def scanPairs (caps : List (Option Rat)) (o : Objs) (want : List Vec) (A B : Lis
           bL := Best2.upd st.bL l a.raw b.raw
           bP := Best2.upd st.bP (e * l) a.raw b.raw
           acc := st.acc.push v }
+      let st : Scan2 := if strictI caps peak then
+          { st with
+            sE := Best2.upd st.sE e a.raw b.raw
+            sL := Best2.upd st.sL l a.raw b.raw
+            sP := Best2.upd st.sP (e * l) a.raw b.raw }
+        else st
       if want.contains v && !(st.found.any (fun p => p.1 == v)) then { st with found := (v, a.raw, b.raw) :: st.found }
       else st) st) {}
 
@@ -281,6 +301,7 @@ def handle (req : Json) : Json :=
       Json.mkObj [
         ("n", ofNat st.n), ("valid", ofNat st.valid), ("unevaluable", ofNat st.uneval),
         ("best", Json.mkObj [("energy", bestJson st.bE), ("latency", bestJson st.bL), ("edp", bestJson st.bP)]),
+        ("bestStrict", Json.mkObj [("energy", bestJson st.sE), ("latency", bestJson st.sL), ("edp", bestJson st.sP)]),
         ("exact", Json.bool st.exact),
         ("found", Json.arr (st.found.map (fun p => Json.mkObj [("v", ofIntList p.1), ("m", mappingJson p.2)])).toArray),
         ("front", if st.exact then rowsJson (frontFast st.acc.rows) else Json.null)]
@@ -316,6 +337,7 @@ def handle (req : Json) : Json :=
         ("n0", ofNat h0.n), ("n1", ofNat h1.n), ("halves0", ofNat A.length), ("halves1", ofNat B.length),
         ("pairs", ofNat st.pairs), ("valid", ofNat st.valid),
         ("best", Json.mkObj [("energy", best2Json st.bE), ("latency", best2Json st.bL), ("edp", best2Json st.bP)]),
+        ("bestStrict", Json.mkObj [("energy", best2Json st.sE), ("latency", best2Json st.sL), ("edp", best2Json st.sP)]),
         ("found", Json.arr (st.found.map (fun p =>
           Json.mkObj [("v", ofIntList p.1), ("a", ofIntList p.2.1), ("b", ofIntList p.2.2)])).toArray),
         ("front", rowsJson (frontFast st.acc.rows))]
